@@ -48,8 +48,8 @@ def readMs (b : BBox) (parts : List (List Pt)) : Dec (BBox × List (List Pt)) :=
 
 /-- Z block when the type has Z, then M block when the type has M and the record carries it -/
 def readZM (d : Dim) (mUsed : Bool) (b : BBox) (parts : List (List Pt)) : Dec (BBox × List (List Pt)) :=
-  Dec.bind (if d.hasZ then readZs b parts else Dec.pure (b, parts)) fun (b1, parts1) =>
-  if d.hasM && mUsed then readMs b1 parts1 else Dec.pure (b1, parts1)
+  Dec.bind (if d.hasZ then readZs b parts else Dec.pure (b, parts)) fun r =>
+  if d.hasM && mUsed then readMs r.1 r.2 else Dec.pure r
 
 /-- `PartIndexIter`: (start, end) of every part; the last part ends at `numPoints` -/
 def partBounds (numPoints : Int) : List Int → List (Int × Int)
@@ -78,17 +78,16 @@ def readMultiPartHeader : Dec MultiPartHeader :=
 /-- the two record sizes a reader accepts: without and with the optional M block
 (`size_of_record(.., false / true)`, computed in `i64`) -/
 def recordSizes (t : ShapeType) (numParts numPoints : Int) : Int × Int :=
-  let (base, mExtra) := sizeOfRecordTerm t
-  let without := base.eval numParts numPoints
-  (without, without + mExtra.eval numParts numPoints)
+  let without := (sizeOfRecordTerm t).1.eval numParts numPoints
+  (without, without + (sizeOfRecordTerm t).2.eval numParts numPoints)
 
 /-- `Polyline*/::read_shape_content` (also the first half of the polygon readers) -/
 def readPolylineContent (d : Dim) (recSize : Int) : Dec (BBox × List (List Pt)) :=
   Dec.bind readMultiPartHeader fun h =>
-  let (without, withM) := recordSizes (polylineType d) h.numParts h.numPoints
-  if recSize ≠ withM ∧ recSize ≠ without then Dec.fail .recSize else
+  let sz := recordSizes (polylineType d) h.numParts h.numPoints
+  if recSize ≠ sz.2 ∧ recSize ≠ sz.1 then Dec.fail .recSize else
   Dec.bind (readPartsXY (partBounds h.numPoints h.partsArray)) fun parts =>
-  readZM d (recSize = withM) h.bbox parts
+  readZM d (recSize = sz.2) h.bbox parts
 
 /-- `PatchType::read_from` -/
 def readPatchKind : Dec PatchKind :=
@@ -99,21 +98,21 @@ def readPatchKind : Dec PatchKind :=
 /-- `Multipatch::read_shape_content` -/
 def readMultipatchContent (recSize : Int) : Dec Shape :=
   Dec.bind readMultiPartHeader fun h =>
-  let (without, withM) := recordSizes .multipatch h.numParts h.numPoints
-  if recSize ≠ withM ∧ recSize ≠ without then Dec.fail .recSize else
+  let sz := recordSizes .multipatch h.numParts h.numPoints
+  if recSize ≠ sz.2 ∧ recSize ≠ sz.1 then Dec.fail .recSize else
   Dec.bind (readCounted h.numParts readPatchKind) fun kinds =>
   Dec.bind (readPartsXY (partBounds h.numPoints h.partsArray)) fun parts =>
-  Dec.bind (readZM .xyzm (recSize = withM) h.bbox parts) fun (b, parts') =>
-  Dec.pure (.multipatch b (kinds.zip parts'))
+  Dec.bind (readZM .xyzm (recSize = sz.2) h.bbox parts) fun r =>
+  Dec.pure (.multipatch r.1 (kinds.zip r.2))
 
 /-- `Multipoint*/::read_shape_content` -/
 def readMultipointContent (d : Dim) (recSize : Int) : Dec Shape :=
   Dec.bind readBBoxXY fun bbox => Dec.bind i32LE fun numPoints =>
-  let (without, withM) := recordSizes (multipointType d) 0 numPoints
-  if recSize ≠ withM ∧ recSize ≠ without then Dec.fail .recSize else
+  let sz := recordSizes (multipointType d) 0 numPoints
+  if recSize ≠ sz.2 ∧ recSize ≠ sz.1 then Dec.fail .recSize else
   Dec.bind (readXYVec numPoints) fun pts =>
-  Dec.bind (readZM d (recSize = withM) bbox [pts]) fun (b, parts') =>
-  Dec.pure (.multipoint d b parts'.flatten)
+  Dec.bind (readZM d (recSize = sz.2) bbox [pts]) fun r =>
+  Dec.pure (.multipoint d r.1 r.2.flatten)
 
 /-- `Point/PointM/PointZ::read_shape_content` -/
 def readPointContent (d : Dim) (recSize : Int) : Dec Shape :=
@@ -140,12 +139,12 @@ def readContentOf (o : Orient) (t : ShapeType) (recSize : Int) : Dec Shape :=
   | .multipoint => readMultipointContent .xy recSize
   | .multipointM => readMultipointContent .xym recSize
   | .multipointZ => readMultipointContent .xyzm recSize
-  | .polyline => Dec.bind (readPolylineContent .xy recSize) fun (b, ps) => Dec.pure (.polyline .xy b ps)
-  | .polylineM => Dec.bind (readPolylineContent .xym recSize) fun (b, ps) => Dec.pure (.polyline .xym b ps)
-  | .polylineZ => Dec.bind (readPolylineContent .xyzm recSize) fun (b, ps) => Dec.pure (.polyline .xyzm b ps)
-  | .polygon => Dec.bind (readPolylineContent .xy recSize) fun (b, ps) => Dec.pure (.polygon .xy b (ps.map fun p => (roleOf o p, p)))
-  | .polygonM => Dec.bind (readPolylineContent .xym recSize) fun (b, ps) => Dec.pure (.polygon .xym b (ps.map fun p => (roleOf o p, p)))
-  | .polygonZ => Dec.bind (readPolylineContent .xyzm recSize) fun (b, ps) => Dec.pure (.polygon .xyzm b (ps.map fun p => (roleOf o p, p)))
+  | .polyline => Dec.bind (readPolylineContent .xy recSize) fun r => Dec.pure (.polyline .xy r.1 r.2)
+  | .polylineM => Dec.bind (readPolylineContent .xym recSize) fun r => Dec.pure (.polyline .xym r.1 r.2)
+  | .polylineZ => Dec.bind (readPolylineContent .xyzm recSize) fun r => Dec.pure (.polyline .xyzm r.1 r.2)
+  | .polygon => Dec.bind (readPolylineContent .xy recSize) fun r => Dec.pure (.polygon .xy r.1 (r.2.map fun p => (roleOf o p, p)))
+  | .polygonM => Dec.bind (readPolylineContent .xym recSize) fun r => Dec.pure (.polygon .xym r.1 (r.2.map fun p => (roleOf o p, p)))
+  | .polygonZ => Dec.bind (readPolylineContent .xyzm recSize) fun r => Dec.pure (.polygon .xyzm r.1 (r.2.map fun p => (roleOf o p, p)))
   | .multipatch => readMultipatchContent recSize
 
 /-- `ShapeType::read_from` -/
